@@ -1,6 +1,7 @@
 import GitSizer.Proofs.History
 import GitSizer.Proofs.PathRes.Ops
 import GitSizer.Gen.Cmds
+import GitSizer.Proofs.GenStrs
 /-! # C08 — Footnotes name a real witness of each maximum
     Proved here (over the REGENERATED `recordBlob`): after recording any sequence of blobs, the cited
     blob is one of the recorded blobs and its size attains the reported maximum; the reported
@@ -146,6 +147,14 @@ theorem tree_entries_reported_except_submodules :
 theorem names_of_walked_roots :
     (Gen.Cmds.resolverSites.filter (fun r => r.2.2.1 == "RecordName" && r.2.1 == "ScanRepositoryUsingGraph")).map (fun r => r.2.2.2.2) =
     ["if root.Walk()"] := by decide
+
+/-- `scanRevision` and `rootTreePrefix` — the string logic that decides how a root's name is extended —
+    as REGENERATED from sizes/path_resolver.go on this run (`for` loop over the bytes with the tagless
+    `switch`, checked index expressions, short-circuit `&&`/`||`) never panic and are the model's -/
+theorem root_tree_prefix_source (hex : Nat → Bytes) (name : Bytes) (oid : Nat) :
+    Gen.Strs.scanRevision name = .ok (scanConv (PathRes.scanRevision 0 false 0 name)) ∧
+    Gen.Strs.rootTreePrefix name (hex oid) = .ok (PathRes.rootTreePrefix hex name oid) :=
+  ⟨scanRevision_regenerated name, rootTreePrefix_regenerated hex name oid⟩
 
 /-! ### the three repaired defects, as kernel-checked facts about git's syntax (`Spec.resolve`) and
     about the descriptions the model of the REPAIRED code prints -/
